@@ -88,6 +88,15 @@ func LoadProgram(repo string, patterns []string, overlay map[string][]byte) (*Pr
 					continue
 				}
 				if named, ok := nt.(*types.Named); ok && named.TypeParams().Len() > 0 {
+					// generic type: its methods exist in SSA as bodies over the type parameters (the "origin"
+					// functions); they are verified as such, with values of type-parameter type opaque
+					for i := 0; i < named.NumMethods(); i++ {
+						if fn := prog.FuncValue(named.Method(i)); fn != nil && fn.Blocks != nil {
+							if _, have := p.Funcs[fn.String()]; !have {
+								p.Funcs[fn.String()] = fn
+							}
+						}
+					}
 					continue
 				}
 				p.named = append(p.named, nt, types.NewPointer(nt))
